@@ -53,11 +53,14 @@ pub trait StateElem:
 }
 impl StateElem for f32 {
     const NAME: &'static str = "f32";
+    // index 0 is +0.0 and index 1 is -0.0: two states that compare equal with `==` and differ only
+    // in the sign bit (the statement is about states "bit for bit"); 2, 3 are +1, -1 and so on
     fn from_index(i: usize) -> f32 {
-        i as f32
+        let m = (i / 2) as f32;
+        if i % 2 == 1 { -m } else { m }
     }
     fn to_index(&self) -> usize {
-        *self as usize
+        2 * (self.abs() as usize) + self.is_sign_negative() as usize
     }
     fn weird(k: u64) -> f32 {
         match k % 6 {
@@ -72,11 +75,14 @@ impl StateElem for f32 {
 }
 impl StateElem for f64 {
     const NAME: &'static str = "f64";
+    // index 0 is +0.0 and index 1 is -0.0: two states that compare equal with `==` and differ only
+    // in the sign bit (the statement is about states "bit for bit"); 2, 3 are +1, -1 and so on
     fn from_index(i: usize) -> f64 {
-        i as f64
+        let m = (i / 2) as f64;
+        if i % 2 == 1 { -m } else { m }
     }
     fn to_index(&self) -> usize {
-        *self as usize
+        2 * (self.abs() as usize) + self.is_sign_negative() as usize
     }
     fn weird(k: u64) -> f64 {
         match k % 6 {
@@ -316,6 +322,9 @@ where
                 if !d.firm {
                     rep.inconclusive("decision within rounding margin or grouping-sensitive");
                     return Some(at_y);
+                }
+                if states[x] == states[y] {
+                    rep.count("candidate_==_state_but_differs_bitwise(+0/-0)");
                 }
                 rep.count(d.class);
                 if d.accept != at_y {
